@@ -7,6 +7,7 @@ import (
 	"fmt"
 	"math"
 	"math/big"
+	"runtime/debug"
 	"strconv"
 	"strings"
 
@@ -493,6 +494,9 @@ func runCase(c Case) vh.Record {
 		// checks/C05.py, and sampled by the generator): op = intToValue (x: int64, decimal) | floatToValue (a: bits)
 		var v goja.Value
 		var bits uint64
+		// intToValue and floatToValue call each other: a broken range test makes the recursion endless, and Go's
+		// stack overflow is fatal (not recoverable); a small limit makes the process die at once instead of after 1 GB
+		debug.SetMaxStack(32 << 20)
 		switch c.Op {
 		case "intToValue":
 			x, _ := strconv.ParseInt(c.X, 10, 64)
